@@ -247,6 +247,7 @@ func handle(h *NtfnsHandler) {
 			verifGate(h, "handle.resumed")
 
 		case block := <-h.queueBlock:
+			verifGate(h, "handle.block")
 			err := h.processConnectedBlock(block)
 			if err != nil {
 				logging.CPrint(logging.WARN, "processConnectedBlock error", logging.LogFormat{
@@ -257,6 +258,7 @@ func handle(h *NtfnsHandler) {
 			}
 
 		case tx := <-h.queueMsgTx:
+			verifGate(h, "handle.tx")
 			err := h.proccessReceivedTx(tx)
 			if err != nil {
 				logging.CPrint(logging.WARN, "proccessReceivedTx error", logging.LogFormat{
